@@ -115,7 +115,7 @@ PROPERTIES = {
     'C13': dict(traces=['val'], families=['val.valset'], title='validator set equals what the engine was told'),
     'C14': dict(traces=['val'], families=['val.plan'], title='executor change plan'),
     'C15': dict(traces=['or'], families=['or.oracle', 'or.disabled'], title='oracle prices need a signed quorum'),
-    'C16': dict(traces=['l1', 'l2'], families=['l1.ledger', 'l2.deposit', 'val.valset'], title='genesis round trip'),
+    'C16': dict(traces=['l1', 'l2'], families=['l1.ledger', 'l1.auth', 'l2.deposit', 'val.valset'], title='genesis round trip'),
     'C17': dict(families=['fmt.formats'], title='commitment formats and purity'),
     'C20': dict(families=['ante.cases'], title='mempool admission'),
     'C18': dict(families=['det.replicas'], title='state transitions are deterministic'),
